@@ -4,6 +4,7 @@ CONSTANTS
   UseCancel = TRUE
   ApiModes = {FALSE, TRUE}
   UseSecond = TRUE
+  DropDelete = FALSE
   TestRng = FALSE
 SPECIFICATION Spec
 INVARIANT TypeOK
